@@ -100,6 +100,47 @@ static void do_rot()
 }
 
 
+// rotg <id> <n> <xs> <ys> <it> <rotmapsize> <clamp> <angle> <qmin> <qmax> <pmin> <pmax> ; data (n*n)
+// RotationMap constructed with sizes (xs, ys) on an n x n phase space (n >= max(xs, ys)), any rotmapsize / clamp flag.
+// prints: thrown 0|1 ; members xsize ysize it ip rotmapsize clamp ; par cos sin d0 d1 z0 z1 ; ax (xs) ; ay (ys) ;
+//         table (xs*ys*it*it idx w, only when rotmapsize != 0) ; out (xs*ys)
+static void do_rotg()
+{
+    std::string id = next();
+    unsigned n = nextl(), xs = nextl(), ys = nextl(), it = nextl(), rms = nextl(), clamp = nextl();
+    float angle = nextf();
+    float qmin = nextf(), qmax = nextf(), pmin = nextf(), pmax = nextf();
+    auto in = mkps(n, 1, qmin, qmax, pmin, pmax);
+    auto out = mkps(n, 1, qmin, qmax, pmin, pmax);
+    for (size_t i = 0; i < (size_t)n * n; i++) in->getData()[i] = nextf();
+    for (size_t i = 0; i < (size_t)n * n; i++) out->getData()[i] = 0;
+    printf("case %s\n", id.c_str());
+    std::unique_ptr<RotationMap> rm;
+    try {
+        rm.reset(new RotationMap(in, out, xs, ys, angle, static_cast<SourceMap::InterpolationType>(it), clamp != 0, rms, nullptr));
+    } catch (const std::invalid_argument&) {
+        printf("thrown 1\nend\n");
+        return;
+    }
+    rm->apply();
+    printf("thrown 0\nmembers %u %u %u %u %u %d", rm->_xsize, rm->_ysize, (unsigned)rm->_it, (unsigned)rm->_ip, rm->_rotmapsize, rm->_clamp ? 1 : 0);
+    printf("\npar");
+    pf(rm->_cos_dt); pf(rm->_sin_dt);
+    pf(rm->_axis[0]->delta()); pf(rm->_axis[1]->delta());
+    pf(rm->_axis[0]->zerobin()); pf(rm->_axis[1]->zerobin());
+    printf("\nax");
+    for (unsigned i = 0; i < xs; i++) pf(rm->_axis[0]->at(i));
+    printf("\nay");
+    for (unsigned i = 0; i < ys; i++) pf(rm->_axis[1]->at(i));
+    printf("\ntable");
+    if (rms)
+        for (size_t k = 0; k < (size_t)xs * ys * it * it; k++) { printf(" %u", rm->_hinfo[k].index); pf(rm->_hinfo[k].weight); }
+    printf("\nout");
+    for (size_t i = 0; i < (size_t)xs * ys; i++) pf(out->getData()[i]);
+    printf("\nend\n");
+}
+
+
 // coeffsweep <id> <it> <nthreads> : every binary32 value f in [0,1) through the real calcCoefficiants.
 // prints: n <count> ; maxsum <max |sum w - 1|> at <f> ; maxmom <max_k |sum_j w_j (j-c)^k - f^k|, k<it> at <f> ; zero <1 if f==0 gives the unit vector>
 #include <thread>
@@ -151,5 +192,5 @@ static void do_coeffsweep()
 
 int main(int argc, char** argv)
 {
-    return run_main(argc, argv, {{"kick", do_kick}, {"kickseq", do_kickseq}, {"coeffs", do_coeffs}, {"rot", do_rot}, {"coeffsweep", do_coeffsweep}});
+    return run_main(argc, argv, {{"kick", do_kick}, {"kickseq", do_kickseq}, {"coeffs", do_coeffs}, {"rot", do_rot}, {"rotg", do_rotg}, {"coeffsweep", do_coeffsweep}});
 }
